@@ -93,3 +93,16 @@ PROPS["C11"] = dict(
     streams=DID_STREAM, trusted=DID_TRUSTED, assumptions=DID_ASSUME,
     note="theorems are about the code after fix 5604f2f8 (F6); monitor mon.c11.ids evaluates the property on the implementation's store after every history",
 )
+
+PROPS["C16"] = dict(
+    module="Panacea.Properties.C16",
+    obligations=["Panacea.C16.aol_accept_iff_documented", "Panacea.C16.pnft_accept_iff_documented",
+                 "Panacea.C16.did_accept_iff_documented", "Panacea.C16.did_iff", "Panacea.C16.vmid_iff",
+                 "Panacea.C16.topic_iff", "Panacea.C16.moniker_iff", "Panacea.C16.admitted_topic_has_no_slash"],
+    streams=[dict(name="validate", quick=400, thorough=20000, thorough_seeds=3)],
+    trusted=["hand-written Lean model Panacea/Model/Validate.lean (+Did.validateBasic) of the 14 ValidateBasic methods, tied by the validate stream (boundary-exhaustive lengths, all 256 byte values per position, multi-byte runes straddling limits)",
+             "Go regexp semantics for the three character classes used ([A-Za-z0-9._-], base58, \\S) transcribed by hand; invalid UTF-8 and multi-byte input are exercised by the stream",
+             "bech32 validity is a parameter (dec)"],
+    assumptions=["dec [] = none (the empty string is not an address) for the PNFT equivalence"],
+    note="`Doc.valid` (document well-formedness) is used as its own documentation except for identifiers (did_iff, vmid_iff); 'nothing outside the limits is stored' follows because deliver = validateBasic;handle in every pipeline model (C15)",
+)
